@@ -314,17 +314,26 @@ class ExploreStats:
         self.by_preemptions: Dict[int, int] = {}
         self.deadlocks = 0
         self.outcomes: Dict[str, int] = {}
+        self.rest: List[Tuple[List[int], int]] = []  # unexplored (prefix, start) items handed back when a work budget ran out
 
 
 def explore(run_one: Callable[[List[int]], Execution], check: Callable[[Execution], Optional[Any]], bound: int,
             roots: Optional[List[List[int]]] = None, stats: Optional[ExploreStats] = None,
-            max_executions: Optional[int] = None, outcome_key: Optional[Callable[[Execution], str]] = None):
-    """Enumerate every schedule with at most `bound` preemptions.  Returns (stats, failures, capped)."""
+            max_executions: Optional[int] = None, outcome_key: Optional[Callable[[Execution], str]] = None, budget: Optional[int] = None):
+    """Enumerate every schedule with at most `bound` preemptions.  Returns (stats, failures, capped).
+
+    roots: choice prefixes, or (prefix, start) items as handed back in stats.rest.  budget: after that many executions the still
+    unexplored part of the search stack is returned in stats.rest instead of being explored here (work splitting: the caller submits
+    those items as further tasks; nothing is dropped)."""
     stats = stats or ExploreStats()
     failures: List[Tuple[List[int], int, Any]] = []
-    stack: List[Tuple[List[int], int]] = [(list(r), len(r)) for r in (roots if roots is not None else [[]])]
+    stack: List[Tuple[List[int], int]] = [((list(r[0]), int(r[1])) if (isinstance(r, (tuple, list)) and len(r) == 2 and isinstance(r[0], (list, tuple)))
+                                           else (list(r), len(r))) for r in (roots if roots is not None else [[]])]
     capped = False
     while stack:
+        if budget is not None and stats.executions >= budget:
+            stats.rest = stack
+            break
         prefix, start = stack.pop()
         x = run_one(prefix)
         stats.executions += 1
